@@ -40,3 +40,9 @@ Definition with_reset (is_async active_low : bool) (rs : list rdecl)
         end
   | [] => (st, Err ETypeError)
   end.
+
+(** a context with a step condition (input number [k] of the inner machine): in a step in which
+    the condition is false nothing of the context executes (pushed signals keep their value too:
+    the per-step defaults belong to an executed step) *)
+Definition with_stepcond (k : nat) (outs : list Z -> list value) (inner : rstep) : rstep := fun st inp =>
+  if vnum (nth k inp (VL false)) =? 0 then (st, Ok (outs st)) else inner st inp.
